@@ -420,6 +420,30 @@ func c05CheckAttr(data []byte, o *bgp.MarshallingOption, st *verifkit.Stats) *ve
 	if !bytes.Equal(g, keep) {
 		return verifkit.Failf("input-modified", "attribute decoder modified the caller's buffer: %x -> %x", keep, g)
 	}
+	// the same bytes under the MRT option (the per-attribute path of pkg/packet/mrt: MP_REACH_NLRI holds the next hop only)
+	if o == nil || !o.MRT {
+		om := bgp.MarshallingOption{MRT: true}
+		if o != nil {
+			om = *o
+			om.MRT = true
+		}
+		gm := guarded(data, 0xaa)
+		if f := safely("GetPathAttribute+DecodeFromBytes (MRT option)", func() {
+			if am, e := bgp.GetPathAttribute(gm); e == nil {
+				if am.DecodeFromBytes(gm, &om) == nil {
+					_ = am.Len(&om)
+					_, _ = am.Serialize(&om)
+					_, _ = renderAll(am)
+				}
+			}
+		}); f != nil {
+			f.Msg += fmt.Sprintf(" (attribute bytes %x)", data)
+			return f
+		}
+		if !bytes.Equal(gm, keep) {
+			return verifkit.Failf("input-modified", "attribute decoder (MRT option) modified the caller's buffer: %x -> %x", keep, gm)
+		}
+	}
 	if a != nil && err == nil {
 		if len(data) >= 3 {
 			st.Nontrivial()
